@@ -11,7 +11,11 @@ EDGE_TITLES = {"end-parent edges:": "end", "create-child edges:": "create", "cre
 
 RULE18 = ("one program = one seed of the serial multi-worker simulator (well-nested task/section grammar with 'other' intervals, "
           "depth<=6, fan-out<=6, 1-16 simulated workers, random task->worker assignment and migration at every runtime call, busy "
-          "waits so that spans cross the contraction thresholds); each program is recorded under a grid of contraction settings "
+          "waits so that spans cross the contraction thresholds; every third program runs with par=1: each task is a real OS "
+          "thread that holds a worker token while it talks to the recorder; every third with vt=1: the recorder's time stamps come "
+          "from the harness through the guarded clock hook, every task has its own virtual clock, a child starts at its parent's "
+          "creation time and a wait returns at the latest end of the children, so that intervals of different tasks overlap and the "
+          "work of a collapsed subgraph exceeds its elapsed time exactly as in a parallel run, independently of machine load); each program is recorded under a grid of contraction settings "
           "(collapse_max in {0, 2000, 2^60}, uncollapse_min in {0, 20000, 2^60}, collapse_max_count in {0, 2, 20, 10^5}, "
           "(node_count_target, prune_threshold) in {(0,-), (10,5), (100,50)}); in every run the recorder's root totals (work, "
           "critical path, create/wait/end/other interval counts) are compared with totals the harness computes from the interval "
@@ -90,12 +94,16 @@ def run(b, tier, seed, t0, prop="C18"):
         fan = r.choice([2, 3, 4, 6])
         workers = r.choice([1, 2, 4, 8, 16])
         files = r.choice([1, 3, 20, 300])
+        par = 1 if i % 3 == 1 else 0
+        vt = 1 if i % 3 == 2 else 0
+        if par:
+            depth, fan, workers = min(depth, 4), min(fan, 4), max(workers, 2)
         for name, envs in settings(r, tier):
             prefix = os.path.join(outdir, "p%d-%s" % (i, name))
             env = dict(env0)
             env.update(envs)
             sims.append(Case([sim, "seed=%d" % s, "prefix=%s" % prefix, "depth=%d" % depth, "fan=%d" % fan, "workers=%d" % workers,
-                              "files=%d" % files, "maxspin=%d" % r.choice([2000, 20000, 100000])],
+                              "files=%d" % files, "maxspin=%d" % r.choice([2000, 20000, 100000]), "par=%d" % par, "vt=%d" % vt],
                              env=env, timeout=200, weight=1, tag="drsim:p%d:%s" % (i, name),
                              meta={"prog": i, "setting": name, "prefix": prefix, "kind": "sim"}))
     core.run_cases(sims)
@@ -205,7 +213,7 @@ def run(b, tier, seed, t0, prop="C18"):
         cov = {"evaluations": len(sims), "distinct_nontrivial": len(sigs18), "rule": RULE18,
                "samples": core.collect_samples(sims, 3) or [{"case": sims[0].tag}],
                "programs": nprog, "settings": sorted(set(c.meta["setting"] for c in sims)),
-               "totals_over_all_recordings": {k: tot18.get(k, 0) for k in ("creates", "waits", "ends", "others", "sections", "intervals", "materialized_nodes")}}
+               "totals_over_all_recordings": {k: tot18.get(k, 0) for k in ("creates", "waits", "ends", "others", "sections", "intervals", "materialized_nodes", "parallel_os_threads", "work_exceeds_elapsed_time", "virtual_clock_reads")}}
         level = "exploration"
     else:
         cov = {"evaluations": len(cases), "distinct_nontrivial": len(sigs19), "rule": RULE19,
